@@ -72,6 +72,12 @@ def run_reject(case, world, idx, op, results, rep, cpus):
         v['signature'] = 'C15 rejected-call ' + v['signature']
         v['rule'] = 'reject_state'
     vs.extend(svs)
+    for k, (obj, before) in getattr(out, 'passed_lists', {}).items():
+        if obj != before:
+            vs.append(V('reject_state', ['C15'],
+                        'C15 rejected-call %s argument-list-modified' % comp,
+                        'rejected call changed its %s argument from %r to %r'
+                        % (k, before, obj)))
     work = [e for e in out.events if e[3] in WORK_KINDS]
     if work and not out.ok:
         kinds = sorted(set(e[3] for e in work))
